@@ -3,6 +3,10 @@
 #define VCHILD_PROTO_H
 #include <stdint.h>
 
+#ifdef __cplusplus
+extern "C" {
+#endif
+
 #define HARNESS_FD_BASE 3000 /* every descriptor the harness owns is >= this */
 #define CTL_CHILD_FD 3900    /* control socket as seen by an exec'd helper   */
 
@@ -49,5 +53,9 @@ static inline uint8_t vc_pat(int stream, uint32_t k)
 }
 
 void vchild_run(int ctl, int image, char *const *argv, char *const *envp);
+
+#ifdef __cplusplus
+}
+#endif
 
 #endif
